@@ -33,7 +33,7 @@ def gen_cases(tier, seed):
     cases = []
     for i in range(n):
         cases.append({"seed": rnd.randrange(10**6), "address": rnd.choice(["127.0.0.1", "127.0.0.1", "0.0.0.0"]), "endpoint": rnd.choice(["/healthz", "/health", "/h/x-1", "/"]),
-                      "fail_at": rnd.choice(["never", "start", "middle", "middle", "end"]), "ninputs": {"quick": 30, "thorough": 60}[tier], "end": rnd.choice(["signal", "signal", "cancel"])})
+                      "fail_at": rnd.choice(["never", "start", "start", "middle", "middle", "end"]), "slow_start": rnd.choice([0, 0, 0.15, 0.3]), "ninputs": {"quick": 30, "thorough": 60}[tier], "end": rnd.choice(["signal", "signal", "cancel"])})
     return cases
 
 
@@ -165,6 +165,11 @@ async def scenario(case, out, stats, fps, samples, incon):
     fail = asyncio.Event()
 
     class FaultyConsumer(_InMemoryConsumer):
+        async def start(self):
+            if self.queue_name == "qok" and case.get("slow_start"):
+                await asyncio.sleep(case["slow_start"])  # a broker round-trip: siblings are up (and may fail) earlier
+            await super().start()
+
         async def consume(self):
             if self.queue_name == "qfail" and fail.is_set():
                 raise RuntimeError("consumer failure (injected)")
@@ -269,6 +274,9 @@ async def scenario(case, out, stats, fps, samples, incon):
     held_task = None
     if case["fail_at"] == "start":
         await flip()
+        if case.get("slow_start"):
+            await asyncio.sleep(case["slow_start"] + 0.1)  # let the slow sibling finish starting: the status must stay 503
+            stats["failures_during_sibling_startup"] += 1
     mid = len(inputs) // 2
     for idx, (kind, chunks, want) in enumerate(inputs):
         if case["fail_at"] == "middle" and idx == mid:
